@@ -40,6 +40,9 @@ func simGoid() uint64 { return getg().goid }
 //go:linkname simInBubble
 func simInBubble() bool { return getg().bubble != nil }
 
+//go:linkname simOnOwnStack
+func simOnOwnStack(p uintptr) bool { gp := getg(); return p >= gp.stack.lo && p < gp.stack.hi }
+
 func simSelRand(n uint32) uint32 {
 	if getg().bubble == nil {
 		return cheaprandn(n)
